@@ -111,6 +111,13 @@ template <typename T> T mk(int i);
 template <> uint8_t mk<uint8_t>(int i) { return static_cast<uint8_t>(i * 7 + 3); }
 template <> Elem mk<Elem>(int i) { return Elem{i * 1000003 + 17, static_cast<char>(i)}; }
 
+// a handle-like element: copying duplicates the value, moving takes it away from the source (so a copy that is really a move shows)
+struct Tok { int v; Tok() : v(-1) {} explicit Tok(int x) : v(x) {} Tok(const Tok& o) : v(o.v) {} Tok(Tok&& o) noexcept : v(o.v) { o.v = -777; }
+	Tok& operator=(const Tok& o) { v = o.v; return *this; } Tok& operator=(Tok&& o) noexcept { v = o.v; o.v = -777; return *this; } };
+inline bool operator==(const Tok& x, const Tok& y) { return x.v == y.v; }
+inline bool operator!=(const Tok& x, const Tok& y) { return !(x == y); }
+template <> Tok mk<Tok>(int i) { return Tok(i * 31 + 5); }
+
 template <typename T, int C> struct SA {
 	static void run(const char* tname) {
 		using A = StaticArrayT<T, C>;
@@ -130,6 +137,13 @@ template <typename T, int C> struct SA {
 		{ int n = 0; bool ok = true; for (auto it = a.begin(); it != a.end(); ++it, ++n) { if (n >= C || *it != model[n]) { ok = false; break; } } ++me().cases; if (!ok || n != C) violation("static-iteration", rp, "iteration visited %d elements of %d / wrong order", n, C);
 		  const A& ca = a; n = 0; ok = true; for (auto it = ca.begin(); it != ca.end(); ++it, ++n) { if (n >= C || *it != model[n]) { ok = false; break; } } if (!ok || n != C) violation("static-const-iteration", rp, "const iteration visited %d of %d", n, C);
 		  n = 0; for (const T& x : a) { if (x != model[n]) ok = false; ++n; } if (!ok || n != C) violation("static-range-for", rp, "range-for visited %d of %d", n, C); }
+		{ // storing through the mutable iterator is storing into the array
+			A b = a; int n = 0; for (auto it = b.begin(); it != b.end(); ++it, ++n) *it = mk<T>(n + 400); ++me().cases;
+			for (int j = 0; j < C; ++j) if (b[j] != mk<T>(j + 400)) { violation("static-store-through-iterator", rp, "a[%d] does not hold the value stored through the iterator", j); break; }
+			n = 0; for (T& x : b) { x = mk<T>(n + 500); ++n; }
+			for (int j = 0; j < C; ++j) if (b[j] != mk<T>(j + 500)) { violation("static-store-through-range-for", rp, "a[%d] does not hold the value stored in a range-for", j); break; }
+			// and a store by index is visible to an iterator obtained before it
+			auto it = b.begin(); b[0] = mk<T>(600); if (*it != mk<T>(600)) violation("static-iterator-sees-store", rp, "iterator does not see a[0] = x"); }
 #endif
 	}
 };
@@ -152,6 +166,20 @@ template <typename T, int C> struct DA {
 		}
 		{ const A& ca = a; int n = 0; bool ok = true; for (auto it = ca.begin(); it != ca.end(); ++it, ++n) if (*it != mk<T>(n)) ok = false; if (!ok || n != C) violation("dynamic-const-iteration", rp, "const iteration visited %d of %d", n, C); n = 0; for (const T& x : ca) { if (x != mk<T>(n)) ok = false; ++n; } if (!ok || n != C) violation("dynamic-range-for", rp, "range-for"); }
 		{ A b = a; b[C / 2] = mk<T>(999); ++me().cases; for (int j = 0; j < C; ++j) { const T want = j == C / 2 ? mk<T>(999) : mk<T>(j); if (b[j] != want) { violation("dynamic-overwrite-independence", rp, "element %d", j); break; } } }
+		{ // storing through the mutable iterator is storing into the array
+			A b = a; int n = 0; for (auto it = b.begin(); it != b.end(); ++it, ++n) *it = mk<T>(n + 400); ++me().cases;
+			for (int j = 0; j < C; ++j) if (b[j] != mk<T>(j + 400)) { violation("dynamic-store-through-iterator", rp, "a[%d] does not hold the value stored through the iterator", j); break; }
+			n = 0; for (T& x : b) { x = mk<T>(n + 500); ++n; }
+			for (int j = 0; j < C; ++j) if (b[j] != mk<T>(j + 500)) { violation("dynamic-store-through-range-for", rp, "a[%d] does not hold the value stored in a range-for", j); break; }
+			auto it = b.begin(); b[0] = mk<T>(600); if (*it != mk<T>(600)) violation("dynamic-iterator-sees-store", rp, "iterator does not see a[0] = x"); }
+		{ // inserting a copy of an existing object leaves that object alone (named objects, const or not, and elements of arrays)
+			A b; T named = mk<T>(1); const T cnamed = mk<T>(2); ++me().cases;
+			b.emplace(named); if (named != mk<T>(1)) violation("dynamic-emplace-consumed-argument", rp, "emplace(x) changed x");
+			if (C > 1) { b.emplace(cnamed); }
+			if (C > 2) { b += named; if (named != mk<T>(1)) violation("dynamic-append-consumed-argument", rp, "a += x changed x"); }
+			if (C > 3) { b.emplace(b[0]); if (b[0] != mk<T>(1) || b[3] != mk<T>(1)) violation("dynamic-emplace-consumed-element", rp, "emplace(a[0]) changed a[0] or stored something else"); }
+			if (C > 4) { StaticArrayT<T, 2> fixed; fixed[0] = mk<T>(8); fixed[1] = mk<T>(9); b.emplace(fixed[1]); if (fixed[1] != mk<T>(9) || b[4] != mk<T>(9)) violation("dynamic-emplace-consumed-element", rp, "emplace(fixed[1]) changed the source element"); }
+			if (b[0] != mk<T>(1) || (C > 1 && b[1] != mk<T>(2)) || (C > 2 && b[2] != mk<T>(1))) violation("dynamic-emplace-value", rp, "inserted copies differ from their sources"); }
 		{ A b = a; b.clear(); ++me().cases; if (b.count() != 0 || !b.empty()) violation("dynamic-clear", rp, "not empty after clear()"); int n = 0; for (auto it = b.begin(); it != b.end(); ++it) ++n; if (n) violation("dynamic-clear-iteration", rp, "iteration after clear() visited %d", n);
 		  // refill after clear: capacity fully available again
 		  for (int i = 0; i < C; ++i) b.emplace(mk<T>(i + 1)); if (b.count() != C || b[C - 1] != mk<T>(C)) violation("dynamic-refill", rp, "refill after clear()"); }
@@ -164,7 +192,7 @@ template <typename T, int C> struct DA {
 	}
 };
 template <int C> struct ArrAll { static void run(int w, int W) {
-	if (C % W == w && !out_of_time()) { snprintf(me().inflight, sizeof me().inflight, "arrays:C=%d", C); SA<uint8_t, C>::run("u8"); SA<Elem, C>::run("struct"); DA<uint8_t, C>::run("u8"); DA<Elem, C>::run("struct"); }
+	if (C % W == w && !out_of_time()) { snprintf(me().inflight, sizeof me().inflight, "arrays:C=%d", C); SA<uint8_t, C>::run("u8"); SA<Elem, C>::run("struct"); DA<uint8_t, C>::run("u8"); DA<Elem, C>::run("struct"); DA<Tok, C>::run("handle"); }
 	ArrAll<C - 1>::run(w, W); } };
 template <> struct ArrAll<VX_CLO - 1> { static void run(int, int) {} };
 
